@@ -8,7 +8,7 @@ import (
 	"fmt"
 	"math/rand"
 	"net/http"
-	"net/http/httptest"
+	"sync/atomic"
 	"strings"
 
 	"github.com/ipni/go-libipni/find/model"
@@ -152,6 +152,16 @@ func runC17(c *vf.Ctx) {
 		a, _ := multiaddr.NewMultiaddr(fmt.Sprintf("/ip4/8.8.8.%d/tcp/%d", k+1, 4000+k))
 		pool[k] = peer.AddrInfo{ID: id.ID, Addrs: []multiaddr.Multiaddr{a}}
 	}
+	// one server per shard serves the record of the case being run
+	var curAll, curOne atomic.Pointer[[]byte]
+	srv := newMemServer(http.HandlerFunc(func(w http.ResponseWriter, req *http.Request) {
+		if strings.HasSuffix(req.URL.Path, "/providers") {
+			w.Write(*curAll.Load())
+		} else {
+			w.Write(*curOne.Load())
+		}
+	}))
+	defer srv.Close()
 	for i := 0; i < n; i++ {
 		if !c.Mine(sub, i) {
 			continue
@@ -199,29 +209,21 @@ func runC17(c *vf.Ctx) {
 
 		var src pcache.ProviderSource = &staticSource{infos: []*model.ProviderInfo{info}}
 		specInfo := info
-		var srv *httptest.Server
 		if viaJSON {
 			body, _ := json.Marshal([]*model.ProviderInfo{info})
 			one, _ := json.Marshal(info)
-			srv = httptest.NewServer(http.HandlerFunc(func(w http.ResponseWriter, req *http.Request) {
-				if strings.HasSuffix(req.URL.Path, "/providers") {
-					w.Write(body)
-				} else {
-					w.Write(one)
-				}
-			}))
+			curAll.Store(&body)
+			curOne.Store(&one)
 			var err error
 			src, err = pcache.NewHTTPSource(srv.URL, nil)
 			if err != nil {
 				c.Fail(sub, i, "harness-http-source", err.Error(), nil)
-				srv.Close()
 				continue
 			}
 			// the specification is applied to the record as the source delivers it
 			var rt []*model.ProviderInfo
 			if err := json.Unmarshal(body, &rt); err != nil {
 				c.Fail(sub, i, "harness-json", err.Error(), nil)
-				srv.Close()
 				continue
 			}
 			specInfo = rt[0]
@@ -263,9 +265,6 @@ func runC17(c *vf.Ctx) {
 				c.Inc("expanded_results")
 			}
 		})
-		if srv != nil {
-			srv.Close()
-		}
 		c.Eval(1)
 		if info.ExtendedProviders != nil {
 			c.Distinct(sub, strings.Join(shape, " "))
